@@ -383,6 +383,13 @@ func (lndb *LevelNodeDB) GetDBVersion() int64 {
 	return lndb.version
 }
 
+// setDBVersion sets the level node db version
+func (lndb *LevelNodeDB) setDBVersion(v int64) {
+	lndb.mutex.Lock()
+	defer lndb.mutex.Unlock()
+	lndb.version = v
+}
+
 // GetCurrent returns current node db
 func (lndb *LevelNodeDB) GetCurrent() NodeDB {
 	lndb.mutex.RLock()
